@@ -179,7 +179,19 @@ def ref_stages(case, t):
     if kind in objs.PLAIN_HOMOG_KINDS:
         return [("h", objs.ref_h(case))]
     if kind in objs.ALIGN_KINDS:
-        return [("h", np.array(t.h_matrix, dtype=float, copy=True))]
+        # affine reading of the snapshot: the alignment classes are affine-family (Affine._apply ignores the last
+        # row), but a fitted matrix carries rounding noise there (solve() of the normal equations: ~1e-16).  The
+        # noise is kept as a third element: it widens the tolerance by what it could change, and only noise-sized
+        # deviations are treated that way
+        h = np.array(t.h_matrix, dtype=float, copy=True)
+        d = h.shape[0] - 1
+        last = np.zeros(d + 1)
+        last[d] = 1.0
+        noise = np.abs(h[d] - last)
+        if noise.max() <= 1e-12:
+            h[d] = last
+            return [("h", h, noise)]
+        return [("h", h)]
     if kind == "WithDims":
         return [("cols", withdims_cols(case))]
     if kind == "TransformChain":
@@ -195,38 +207,82 @@ def ref_stages(case, t):
     raise ValueError(kind)
 
 
+def _gain(fn, y):
+    """Numerical estimate of the local gain (inf-norm Lipschitz factor) of a reference stage at the points y."""
+    g = 1.0
+    base = fn(np.array(y, copy=True))
+    for j in range(y.shape[1]):
+        hstep = 1e-6 * (1.0 + np.abs(y).max())
+        yy = np.array(y, copy=True)
+        yy[:, j] += hstep
+        dif = np.abs(fn(yy) - base) / hstep
+        dif = dif[np.isfinite(dif)]
+        if dif.size:
+            g = max(g, float(dif.max()))
+    return g
+
+
+EPS = 2.220446049250313e-16
+ROUND_C = 64.0
+
+
 def ref_eval(stages, x):
-    """-> (y, ok, amp, mag): values, per-point validity (no small divisor), divisor amplification, magnitude."""
+    """-> (y, ok, amp, mag, tolv): values, per-point validity, divisor amplification, magnitude over all stages,
+    per-point absolute tolerance.
+
+    tolv[i] = max(1e-9 * mag * amp[i], ROUND_C * k * eps * vmax[i]) where vmax is the magnitude obtained by pushing
+    |x| through the entrywise ABSOLUTE values of the k stages (the standard forward bound for a product of k
+    matrices applied to a vector, valid both for stage-by-stage application and for a pre-multiplied matrix).
+    Points whose rounding bound exceeds 1e-6 * mag are too ill conditioned to judge and are dropped."""
     y = np.array(x, dtype=float)
     n = y.shape[0]
     ok = np.ones(n, dtype=bool)
     amp = np.ones(n)
     mag = max(1.0, float(np.abs(y).max())) if y.size else 1.0
+    v = np.hstack([np.abs(y), np.ones((n, 1))])  # abs-propagated homogeneous magnitudes
+    e = np.zeros(n)  # absolute slack for last-row noise of fitted (alignment) matrices, propagated forward
+    k = 0
     for stg in stages:
+        k += 1
         if stg[0] == "h":
             h = stg[1]
+            ah = np.abs(h)
             d = h.shape[0] - 1
             out = np.zeros((n, d))
+            vout = np.ones((n, d + 1))
             for i in range(n):
                 if not ok[i]:
                     continue
-                v = [sum(h[r, c] * y[i, c] for c in range(d)) + h[r, d] for r in range(d + 1)]
+                w = [sum(h[r, c] * y[i, c] for c in range(d)) + h[r, d] for r in range(d + 1)]
                 terms = sum(abs(h[d, c] * y[i, c]) for c in range(d)) + abs(h[d, d])
-                if abs(v[d]) < DIV_MIN:
+                if abs(w[d]) < DIV_MIN:
                     ok[i] = False
                     continue
-                amp[i] *= terms / abs(v[d])
+                amp[i] *= terms / abs(w[d])
                 for r in range(d):
-                    out[i, r] = v[r] / v[d]
+                    out[i, r] = w[r] / w[d]
+                for r in range(d + 1):
+                    vout[i, r] = sum(ah[r, c] * v[i, c] for c in range(d + 1)) / abs(w[d])
+                e[i] = e[i] * max(sum(ah[r, c] for c in range(d)) for r in range(d)) * (terms / abs(w[d])) / abs(w[d])
+                if len(stg) > 2:
+                    delta = sum(stg[2][c] * abs(y[i, c]) for c in range(d)) + stg[2][d]
+                    e[i] += delta * max(abs(out[i, r]) for r in range(d))
             y = out
+            v = vout
         elif stg[0] == "cols":
             cols = stg[1]
-            y = np.array([[row[k] for k in cols] for row in y], dtype=float).reshape(n, len(cols))
-        elif stg[0] == "fn":
-            y = np.asarray(stg[1](np.array(y, copy=True)), dtype=float)
-        elif stg[0] == "pwa":
-            y = pwa_reference(stg[1], stg[2], stg[3], y)
+            y = np.array([[row[c] for c in cols] for row in y], dtype=float).reshape(n, len(cols))
+            v = np.array([[row[c] for c in cols] + [row[-1]] for row in v], dtype=float).reshape(n, len(cols) + 1)
+        elif stg[0] in ("fn", "pwa"):
+            if stg[0] == "fn":
+                fn = lambda z, f=stg[1]: np.asarray(f(np.array(z, copy=True)), dtype=float)
+            else:
+                fn = lambda z, a=stg[1], b=stg[2], c=stg[3]: pwa_reference(a, b, c, z)
+            g = _gain(fn, y)
+            e = e * g
+            y = fn(y)
             y[~ok] = 0.0
+            v = np.hstack([g * v[:, :-1].max(axis=1, keepdims=True) + np.abs(np.nan_to_num(y)), v[:, -1:]])
         else:
             raise ValueError(stg[0])
         if ok.any() and y.size:
@@ -235,7 +291,11 @@ def ref_eval(stages, x):
             if fin.size:
                 mag = max(mag, float(fin.max()))
     ok &= amp <= AMP_MAX
-    return y, ok, amp, mag
+    vmax = v[:, :-1].max(axis=1) if v.shape[1] > 1 else np.zeros(n)
+    rnd = ROUND_C * max(1, k) * EPS * vmax
+    ok &= rnd <= 1e-6 * mag
+    tolv = np.maximum(1e-9 * mag * np.maximum(1.0, amp), rnd) + 4.0 * e
+    return y, ok, amp, mag, tolv
 
 
 def stages_matrix(stages):
@@ -250,10 +310,10 @@ def stages_matrix(stages):
 
 def check_map(ctx, t, x, ref, sig, what=""):
     """t.apply(x) against a reference evaluation (y, ok, amp, mag); returns the number of points compared."""
-    want, ok, amp, mag = ref
+    want, ok, amp, mag, tolv = ref
     n_ok = int(ok.sum())
     if n_ok < len(ok):
-        ctx.event("skipped point (small homogeneous divisor)")
+        ctx.event("skipped point (small homogeneous divisor or ill conditioned)")
     if n_ok == 0:
         ctx.event("no valid evaluation point")
         return 0
@@ -266,7 +326,7 @@ def check_map(ctx, t, x, ref, sig, what=""):
         if not ok[i]:
             continue
         err = np.abs(got[i] - want[i]).max() if got.shape[1] else 0.0
-        tol = 1e-9 * mag * max(1.0, amp[i])
+        tol = tolv[i]
         if not (err <= tol):
             if worst is None or not (err <= worst[0]):
                 worst = (err, tol, i)
@@ -342,11 +402,11 @@ def check_closure_honesty(ctx, r, x, ref, prod):
     ctx.expect(r.has_true_inverse is True, "closure.has_true_inverse_false", lambda: repr(r.has_true_inverse))
     inv = r.pseudoinverse()
     ctx.expect(isinstance(inv, Homogeneous), "closure.pseudoinverse_not_homogeneous", lambda: type(inv).__name__)
-    want, ok, amp, mag = ref
+    want, ok, amp, mag, tolv = ref
     if ok.any():
         back = np.asarray(inv.apply(np.array(want[ok], copy=True)), dtype=float)
         orig = np.asarray(x, dtype=float)[ok]
-        tol = 1e-7 * mag * max(1.0, float(amp[ok].max()))
+        tol = 1e-7 * mag * max(1.0, float(amp[ok].max()))  # two well conditioned factors: cond <= 16 * 16
         ctx.expect(back.shape == orig.shape and bool(np.all(np.abs(back - orig) <= tol)),
                    "closure.pseudoinverse_does_not_invert",
                    lambda: "pseudoinverse(composite(x)) != x\n got %r\n x   %r" % (back.tolist(), orig.tolist()))
@@ -451,12 +511,12 @@ def run_pair(ctx, ca, cb, direction, inplace, alias, x):
     a2 = build(ca)
     b2 = a2 if alias else build(cb)
     r2 = getattr(a2, meth)(b2)
-    _, ok, amp, mag = ref
+    _, ok, amp, mag, tolv = ref
     if ok.any():
         xs = np.asarray(x, dtype=float)[ok]
         g1 = np.asarray(a.apply(xs.copy()), dtype=float)
         g2 = np.asarray(r2.apply(xs.copy()), dtype=float)
-        tol = 1e-9 * mag * max(1.0, float(amp[ok].max()))
+        tol = 2.0 * float(tolv[ok].max())
         ctx.expect(g1.shape == g2.shape and bool(np.all(np.abs(g1 - g2) <= tol)), "inplace.differs_from_plain.%s" % direction,
                    lambda: "in-place %r\nplain %r" % (g1.tolist(), g2.tolist()))
     if isinstance(a, Homogeneous) and dishonest_classes(a):
@@ -833,10 +893,10 @@ def c_decompose(case, ctx):
 CLAUSES = [
     Clause("grid", c_grid, enumerate=grid_cells, nt_floor=0.0,
            rule="12 x 12 classes x {before, after} x {2-D, 3-D} x {plain, in-place}, 3 / 60 seeded parameter sets per cell"),
-    Clause("pairs", c_pairs, s_pairs, quick=1500, thorough=40000, nt_floor=0.4,
+    Clause("pairs", c_pairs, s_pairs, quick=4000, thorough=80000, nt_floor=0.4,
            rule="drawn pairs incl. chains, TPS, PWA, WithDims; law on in-domain points, operands intact, in-place gate"),
-    Clause("programs", c_programs, s_programs, quick=500, thorough=20000, nt_floor=0.3,
+    Clause("programs", c_programs, s_programs, quick=2000, thorough=40000, nt_floor=0.3,
            rule="1-8 compose steps on an accumulator with aliasing; non-trivial: >= 2 executed steps incl. an accepted in-place one"),
-    Clause("decompose", c_decompose, s_decompose, quick=500, thorough=10000, nt_floor=0.4,
+    Clause("decompose", c_decompose, s_decompose, quick=1000, thorough=20000, nt_floor=0.4,
            rule="reduce(compose_before, t.decompose()) equals t; non-trivial: 4-factor decomposition of a non-identity affine"),
 ]
